@@ -29,7 +29,7 @@ pub fn install_panic_hook() {
         } else {
             "<non-string payload>".to_string()
         };
-        LAST_PANIC.with(|p| *p.borrow_mut() = Some(format!("{msg} @ {loc}")));
+        let _ = LAST_PANIC.try_with(|p| *p.borrow_mut() = Some(format!("{msg} @ {loc}")));
     }));
 }
 
@@ -48,7 +48,7 @@ pub fn guard<R>(f: impl FnOnce() -> R) -> Result<R, Abnormal> {
     match catch_unwind(AssertUnwindSafe(f)) {
         Ok(r) => Ok(r),
         Err(payload) => {
-            let txt = LAST_PANIC.with(|p| p.borrow_mut().take()).unwrap_or_default();
+            let txt = LAST_PANIC.try_with(|p| p.borrow_mut().take()).ok().flatten().unwrap_or_default();
             if let Some(m) = payload.downcast_ref::<SimMarker>() {
                 match m {
                     SimMarker::Liveness(s) => Err(Abnormal::Liveness(s.clone())),
